@@ -63,6 +63,9 @@ VARIANTS = {
     (SU, "        right_extreme = df + pump_baud_rate / 2\n", "        right_extreme = pump_baud_rate / 2 + df\n", 'commuted sum'),
   ]},
  'C04': {M: [
+    (EL, "            nf_avg = lin2db(db2lin(nf1_avg) + db2lin(nf2_avg - g1))", "            nf_avg = lin2db(db2lin(nf1_avg) + db2lin(nf2_avg - g2))", 'second stage referred through the wrong gain'),
+    (EL, "                                    self.params.booster_gain_flatmax,\n                                    g2)", "                                    self.params.booster_gain_flatmax,\n                                    g1)", 'booster evaluated at the preamp gain'),
+    (EL, "            nf2_avg, pad = self._nf(self.params.booster_type_def,\n                                    self.params.booster_nf_model,", "            nf2_avg, pad = self._nf(self.params.booster_type_def,\n                                    self.params.preamp_nf_model,", 'booster uses the preamp NF model'),
     (EL, "        self.pin_db = watt2dbm(spectral_info.ptot)", "        self.pin_db = watt2dbm(max(spectral_info.pch))", 'clamp on the strongest channel'),
     (EL, "            g1a = gain_target - nf_model.delta_p - dg", "            g1a = gain_target - nf_model.delta_p + dg", 'sign of dg'),
     (SU, "    g1a_max = gain_max - delta_p\n    nf2", "    g1a_max = gain_max\n    nf2", 'loader coil model'),
@@ -70,15 +73,21 @@ VARIANTS = {
     (EL, "            self.params.p_max - self.pin_db\n        )", "            max(self.params.p_max - self.pin_db, 0)\n        )", 'clamp floored at 0'),
     (EL, "        spectral_info.apply_gain_db(self.gprofile - self.out_voa)", "        spectral_info.apply_gain_db(self.gprofile)", 'output VOA ignored'),
   ], R: [
+    (EL, "            nf_avg = lin2db(db2lin(nf1_avg) + db2lin(nf2_avg - g1))", "            nf_avg = lin2db(db2lin(nf1_avg) + db2lin(nf2_avg) / db2lin(g1))", 'Friis written as a quotient'),
     (EL, "        self.effective_gain = min(\n            self.effective_gain,\n            self.params.p_max - self.pin_db\n        )", "        headroom = self.params.p_max - self.pin_db\n        self.effective_gain = min(headroom, self.effective_gain)", 'hoisted headroom'),
     (EL, "        pad = max(gain_min - gain_target, 0)\n        gain_target += pad", "        pad = max(0, gain_min - gain_target)\n        gain_target = gain_target + pad", 'commuted max, explicit add'),
   ]},
  'C05': {M: [
+    (EL, "        beta2 = -((c / frequency) ** 2 * dispersion) / (2 * pi * c)", "        beta2 = -((c / frequency) ** 2 * dispersion) / (2 * pi)", 'beta2 conversion loses a factor c'),
+    (EL, "                dispersion = (frequency / self.params.f_dispersion_ref) ** 2 * self.params.dispersion", "                dispersion = (frequency / self.params.f_dispersion_ref) * self.params.dispersion", 'dispersion scaled linearly with frequency'),
+    (EL, "        return dispersion * length\n", "        return dispersion * length ** 2 / 80000\n", 'CD not proportional to length'),
+    (EL, "        beta = beta2 + 2 * pi * beta3 * (freq - ref_f)", "        beta = beta2 + 2 * pi * beta3 * freq", 'third-order term does not vanish at the reference'),
     (EL, "        attenuation_in_db = self.params.con_in + self.params.att_in\n        spectral_info.apply_attenuation_db(attenuation_in_db)\n\n        # Raman pumps", "        attenuation_in_db = self.params.con_in\n        spectral_info.apply_attenuation_db(attenuation_in_db)\n\n        # Raman pumps", 'padding not applied in RamanFiber'),
     (EL, "        spectral_info.latency += self.params.latency", "        spectral_info.latency = self.params.latency", 'latency overwritten'),
     (EL, "        spectral_info.pdl = sqrt(spectral_info.pdl ** 2 + self.params.pdl ** 2)", "        spectral_info.pdl = spectral_info.pdl + self.params.pdl", 'PDL added linearly'),
     (EL, "            self.params.con_in + self.params.con_out + self.params.att_in + sum(lin2db(1 / self.lumped_losses))", "            self.params.con_in + self.params.con_out + sum(lin2db(1 / self.lumped_losses))", 'loss budget misses padding'),
   ], R: [
+    (EL, "        dispersion = -beta * 2 * pi * ref_f**2 / c\n        return dispersion * length", "        per_metre = -2 * pi * beta * ref_f * ref_f / c\n        return length * per_metre", 'CD: renamed temporary, commuted'),
     (EL, "        attenuation_out_db = self.params.con_out\n        spectral_info.apply_attenuation_db(attenuation_out_db)\n        self.pch_out_dbm = spectral_info.pch_dbm\n        self.propagated_labels = spectral_info.label\n\n    def __call__", "        spectral_info.apply_attenuation_db(self.params.con_out)\n        self.pch_out_dbm = spectral_info.pch_dbm\n        self.propagated_labels = spectral_info.label\n\n    def __call__", 'inlined temporary'),
   ]},
  'C06': {M: [
@@ -110,7 +119,10 @@ VARIANTS = {
     (NW, "            amp.delta_p = amp.delta_p + voa\n", "", 'VOA not added to delta_p'),
     (NW, "            power_reduction = min(0, p_max - (pref_total_db + dp))", "            power_reduction = min(0, p_max - (pref_ch_db + dp))", 'saturation on per-channel power'),
     (NW, "        dp = max(dp_range[0], dp)\n        dp = min(dp_range[1], dp)", "        dp = max(dp_range[0], dp)", 'upper clamp dropped'),
+    (NW, "    gain += sum(estimate_raman_gain(n, equipment, input_power) for n in next_node_generator(network, node))\n", "", 'Raman gain of the successors dropped'),
+    (NW, "    loss += sum(n.loss for n in prev_node_generator(network, node))\n    loss += sum(n.loss for n in next_node_generator(network, node))", "    loss += sum(n.loss for n in next_node_generator(network, node))\n    loss += sum(n.loss for n in next_node_generator(network, node))", 'successors counted twice, predecessors never'),
   ], R: [
+    (NW, "    gain = estimate_raman_gain(node, equipment, input_power)\n    gain += sum(estimate_raman_gain(n, equipment, input_power) for n in prev_node_generator(network, node))\n    gain += sum(estimate_raman_gain(n, equipment, input_power) for n in next_node_generator(network, node))\n    return loss - gain", "    loss -= estimate_raman_gain(node, equipment, input_power)\n    loss -= sum(estimate_raman_gain(n, equipment, input_power) for n in next_node_generator(network, node))\n    loss -= sum(estimate_raman_gain(n, equipment, input_power) for n in prev_node_generator(network, node))\n    return loss", 'span_loss: gains subtracted in place, other order'),
     (NW, "    power_target = pref_total_db + dp\n", "    power_target = dp + pref_total_db\n", 'commuted sum'),
     (NW, "        dp = max(dp_range[0], dp)\n        dp = min(dp_range[1], dp)", "        dp = min(dp_range[1], max(dp_range[0], dp))", 'nested clamp'),
   ]},
@@ -143,7 +155,11 @@ VARIANTS = {
     (RQ, "                    del roadm_osnr[-1]\n", "", 'transmitter OSNR left in the list'),
     (RQ, "                if round(snr01nm_with_penalty[min_ind], 2) < pathreq.OSNR + equipment['SI']['default'].sys_margins:\n                    msg = f'\\tWarning! Request {pathreq.request_id} computed path from' \\\n                        + f' {pathreq.source} to", "                if round(snr01nm_with_penalty[min_ind], 2) < pathreq.OSNR:\n                    msg = f'\\tWarning! Request {pathreq.request_id} computed path from' \\\n                        + f' {pathreq.source} to", 'margin dropped from the verdict'),
     (EL, "                      left=float('inf'), right=float('inf'))", "                      left=float('inf'))", 'no penalty beyond the table'),
+    (JIO, "                    imp_penalties.sort(key=lambda i: i[impairment])\n", "", 'penalty rows not sorted'),
+    (JIO, "                    if all(p[impairment] > 0 for p in imp_penalties):", "                    if any(p[impairment] > 0 for p in imp_penalties):", 'lower boundary added when any boundary is positive'),
+    (JIO, "                        'penalty_value': [p['penalty_value'] for p in imp_penalties]", "                        'penalty_value': [p['penalty_value'] for p in penalties if impairment in p]", 'penalties read from the unsorted rows'),
   ], R: [
+    (JIO, "                    if all(p[impairment] > 0 for p in imp_penalties):", "                    if all([row[impairment] > 0 for row in imp_penalties]):", 'list comprehension, renamed variable'),
     (EL, "        snr_added = -lin2db(snr_added)\n", "        snr_added = lin2db(1 / snr_added)\n", 'log of the reciprocal'),
   ]},
  'C14': {M: [
@@ -153,8 +169,14 @@ VARIANTS = {
     (SA, "        if startn <= self.spectrum_bitmap.n_min:", "        if startn < self.spectrum_bitmap.n_min:", 'bound strictness'),
     (SA, "            path_oms = build_path_oms_id_list(pth + rpth)", "            path_oms = build_path_oms_id_list(pth)", 'reverse path ignored'),
     (SA, "        return candidates[0]", "        return candidates[-1]", 'first fit returns the last'),
+    (SA, "freq_index[i], freq_index[i] + 2 * requested_m - 1)", "freq_index[i], freq_index[i] + 2 * requested_m)", 'granted stop one past the tested window'),
+    (SA, "        if (freq_availability[i - requested_m:i + requested_m] == [BitmapValue.FREE] * (2 * requested_m)", "        if (freq_availability[i - requested_m:i + requested_m - 1] == [BitmapValue.FREE] * (2 * requested_m - 1)", 'fixed N: last slot untested'),
+    (SA, "           and freq_index[center_i + i - 1] <= freq_index_max", "           and freq_index[center_i + i - 2] <= freq_index_max", 'probe: upper guard band one slot short'),
+    (SA, "    return i - per_channel_m", "    return i", 'probe returns the width that failed'),
+    (SA, "                      and freq_index[i] >= freq_index_min\n", "", 'free search: lower guard band unchecked'),
     (SA, "            available_slots = determine_slot_numbers(test_oms, n, m, m)", "            available_slots = determine_slot_numbers(test_oms, n, m, per_channel_m)", 'fixed slot probed partially'),
   ], R: [
+    (SA, "                      if freq_availability[i:i + 2 * requested_m] == [BitmapValue.FREE] * (2 * requested_m)\n                      and freq_index[i] >= freq_index_min\n                      and freq_index[i + 2 * requested_m - 1] <= freq_index_max]", "                      if freq_index[i] >= freq_index_min\n                      and freq_index_max >= freq_index[2 * requested_m + i - 1]\n                      and [BitmapValue.FREE] * (requested_m * 2) == freq_availability[i:i + requested_m * 2]]", 'conjuncts reordered, comparisons flipped'),
     (SA, "        if startn <= self.spectrum_bitmap.n_min:", "        if startn - 1 < self.spectrum_bitmap.n_min:", 'equivalent integer comparison'),
     (SA, "    bitmap = list(spectrum.bitmap)", "    bitmap = spectrum.bitmap.copy()", 'copy idiom'),
     (SA, "    bitmap = list(spectrum.bitmap)", "    bitmap = spectrum.bitmap[:]", 'copy idiom'),
